@@ -109,6 +109,13 @@ def generate(rng, tier):
         out.append(c)
     o = gen.Opts(p_enum=0.6, max_modules=2, max_items=5, p_backend=0.0, p_impl=0.1)
     out += std_worlds(rng, n // 5, o)
+    # a base type NAMED like an integer type that is something else: a by-name import of a struct called `u32` wins over the
+    # built-in, so `enum E: u32` has a struct as base – rejected, not emitted with #[repr(crate::wide::u32)]
+    for i in range(max(4, n // 40)):
+        nm = rng.choice(['u8', 'u32', 'i16', 'u64'])
+        wide = modent(path('wide'), module(defs=[type_def(True, nm, [], [field(True, 'x', ty_id('u16'))])]))
+        m = modent(path('m'), module(uses=[path('wide', nm)], defs=[gen_enum(rng, 'E0')[:3] + [[S('enum'), ty_id(nm)] + gen_enum(rng, 'E0')[3][2:]]]))
+        out.append(case('shadow%d' % i, rng.choice([4, 8]), [wide, m] if rng.random() < 0.5 else [m, wide]))
     return out
 
 def spec_values(stmts):
@@ -150,6 +157,10 @@ def judge(c, impl, model):
             dfl = has_ident(enum_attrs(d), 'defaultable')
             if bname not in BASES:
                 must_reject = must_reject or 'non-integer-base'
+            elif spec is None:
+                b_ = binder(c, mp)(bname)
+                if b_ is not None and len(b_) > 1:
+                    must_reject = must_reject or 'non-integer-base'      # the name denotes a user type that shadows the built-in
             if bname in BASES:
                 signed, bits = BASES[bname]
                 for (n_, v) in vals:
